@@ -177,20 +177,18 @@ def build(repo=None):
     for lp in [x for x in ast.walk(fn) if isinstance(x, ast.For)]:
         eng.loop_specs[id(lp)] = loop_handler
 
-    def m_extend(e, s, recv, args, kw, nd):
-        # pieces.extend(<piece> for name, value in <mapping>.items()): the same contract as the loop, cut at an arbitrary item
-        if not (isinstance(recv, Ref) and isinstance(s.get(recv), ListObj) and len(args) == 1 and isinstance(args[0], Fn) and isinstance(args[0].node, ast.GeneratorExp)):
-            return None
-        g = args[0].node
+    def comp_pieces(e, s, g, closure):
+        """<piece> for name, value in <mapping>.items()  (generator or list comprehension): the same contract as the loop, cut at an arbitrary item;
+        returns [(state, value standing for all the pieces of that mapping, in order)]"""
         if len(g.generators) != 1 or g.generators[0].ifs or g.generators[0].is_async:
-            raise Unsupported("shape_str: generator shape in extend()")
+            raise Unsupported("shape_str: generator / comprehension shape")
         gen = g.generators[0]
         outs = []
         s_c = s.clone()
-        s_c.env = dict(args[0].closure or s.env)
+        s_c.env = dict(closure if closure is not None else s.env)
         for s1, it in e.ev(gen.iter, s_c):
             if not (isinstance(it, Opaque) and it.tag.startswith("items-of:")):
-                raise Unsupported("shape_str: extend() iterates over something else than <mapping>.items()")
+                raise Unsupported("shape_str: a generator / comprehension iterates over something else than <mapping>.items()")
             tag = it.tag[len("items-of:"):]
             src = Opaque(tag, it.t)
             s2 = s1.clone()
@@ -204,12 +202,39 @@ def build(repo=None):
                 want = z3.Concat(KeyF(src.t, i), z3.StringVal("="), fmt_term(e, s3, val)) if not isinstance(val, Tup) else None
                 e.oblige(s3, "C13:shape_str:each-binding-yields-exactly-one-piece-name=value", (pv.t == want) if isinstance(pv, Z) and pv.kind == "str" and want is not None else z3.BoolVal(False), item=i)
             s9 = s.clone()
-            s9.put(recv, ListObj(list(s.get(recv).items) + [Opaque("all-pieces-of:" + tag)]))
             s9.path.append(f"extend-over-{tag}:done")
+            outs.append((s9, Opaque("all-pieces-of:" + tag)))
+        return outs
+
+    def m_extend(e, s, recv, args, kw, nd):
+        # pieces.extend(<generator>) / pieces.extend([<comprehension>])
+        if not (isinstance(recv, Ref) and isinstance(s.get(recv), ListObj) and len(args) == 1):
+            return None
+        if isinstance(args[0], Fn) and isinstance(args[0].node, ast.GeneratorExp):
+            rs = comp_pieces(e, s, args[0].node, args[0].closure)
+        elif isinstance(args[0], Opaque) and args[0].tag.startswith("all-pieces-of:"):
+            rs = [(s, args[0])]
+        else:
+            return None
+        outs = []
+        for s1, allp in rs:
+            s9 = s1.clone()
+            s9.put(recv, ListObj(list(s1.get(recv).items) + [allp]))
             outs.append((s9, NONE))
         return outs
 
     eng.method_models["extend"] = m_extend
+    eng.method_models["__listcomp__"] = lambda e, s, node: comp_pieces(e, s, node, None)
+
+    def m_iadd(e, s, a, b, node):
+        # pieces += [<comprehension>]  (list.__iadd__ extends in place)
+        if isinstance(a, Ref) and isinstance(s.get(a), ListObj) and isinstance(b, Opaque) and b.tag.startswith("all-pieces-of:"):
+            s9 = s.clone()
+            s9.put(a, ListObj(list(s.get(a).items) + [b]))
+            return [(s9, NORMAL)]
+        return None
+
+    eng.method_models["__iadd__"] = m_iadd
 
     def m_join(e, s, recv, args, kw, nd):
         if isinstance(recv, Z) and recv.kind == "str" and len(args) == 1 and isinstance(args[0], Ref) and isinstance(s.get(args[0]), ListObj):
